@@ -329,6 +329,27 @@ package crypto
 //@   loop iter0 invariant [keys] *errs == nil && (forall x hotstuff.ID :: {visited(iter0, x)} visited(iter0, x) ==> blskey(bls, x))
 //@   opt noframe true
 
+// Proof-of-possession cache: a public key of another replica is handed out only after its proof
+// of possession passed the pairing check, now or earlier (a cached NEGATIVE verdict is not a
+// pass). popvalid(k): the proof/public-key pair that cache key k stands for has been proved.
+//@ pure func popvalid(key string) bool
+//@ pure func popproved(pk *BLS12PublicKey, proof int) bool
+//@ pred popinv(bls *bls12Base) = bls.popCache != nil && (forall k string :: {has(bls.popCache, k)} has(bls.popCache, k) && bls.popCache[k] ==> popvalid(k))
+//@ func (BLS12PublicKey).ToBytes
+//@   trusted compressed form of the key (external library): a function of the key
+//@   ensures fresh(result)
+//@   modifies alloc
+//@ func (*bls12Base).popVerify
+//@   trusted pairing check of the external kilic/bls12-381 library
+//@   ensures result == nil ==> popproved(pubKey, proof)
+//@ func (*bls12Base).checkPop property C09,C02
+//@   requires popinv(bls) && replica != nil && istype(replica.PubKey, *BLS12PublicKey) && as(replica.PubKey, *BLS12PublicKey) != nil
+//@   ghost at call RLock :: emit popk(bstr(bchain(key)))
+//@   ghost at mapupdate popCache :: assume popproved(as(replica.PubKey, *BLS12PublicKey), proof) ==> popvalid(op0)
+//@   ensures [only-proved-keys-pass] result == nil ==> tracelen(popk) == old(tracelen(popk)) + 1 && popvalid(traceat(popk, 0, old(tracelen(popk))))
+//@   ensures [inv] popinv(bls)
+//@   opt noframe true
+
 // BatchVerify (aggregate QCs): the quorum is counted from the CLAIMED participant set, the pairing
 // check covers the ids of the batch; so an accepted signature must claim exactly as many
 // participants as there are batch entries (each batch id is a distinct map key with a configured
